@@ -25,6 +25,22 @@ int main (void)
   t = find_term (root);
   CHECK (t != NULL && t->val.term.code == 'x', "tree must contain the TERM node of x");
   CHECK (t->val.term.attr == (void *) &attrs[1], "TERM node of token 1 carries the attribute of another token");
+  yaep_free_tree (root, NULL, NULL);
+  /* several `error' insertions inside one recovery (secondary recovery states) */
+  {
+    static const int in2[] = { 'a', 'a', 'a' };
+    struct yaep_tree_node *n; int k;
+    CHECK (yaep_parse_grammar (g, 0, "S : 'a' error # r (0) | S S # s (0 1) ;") == 0, "define 2");
+    w_toks = in2; w_ntoks = 3; w_pos = 0;
+    CHECK (yaep_parse (g, rt, w_syntax_error, NULL, NULL, &root, &amb) == 0 && root != NULL, "parse 2");
+    /* the rightmost leaf chain: s(s(r(a0),r(a1)),r(a2)) */
+    for (n = root, k = 2; n->type == YAEP_ANODE && strcmp (n->val.anode.name, "s") == 0; n = n->val.anode.children[0], k--)
+      {
+        struct yaep_tree_node *r = n->val.anode.children[1];
+        CHECK (r->type == YAEP_ANODE && r->val.anode.children[0]->type == YAEP_TERM, "shape");
+        CHECK (r->val.anode.children[0]->val.term.attr == (void *) &attrs[k], "TERM node carries the attribute of another (or of no) token after a recovery with several error insertions");
+      }
+  }
   printf ("WITNESS-OK\n");
   return 0;
 }
